@@ -580,7 +580,8 @@ FLOAT_BOUNDS = [0.0, 1.0, -1.0, 1e-6, -1e-6, 1e-7, 1e6, -1e6, 2e6, -2e6, 1e16, -
 STR_BOUNDS = ["", "foo", "Zz9", "a"]
 DT_BOUNDS = [D1, D2]
 UUID_BOUNDS = [U0, U1, U2]
-SETS = [[], [2, 3, 4], ["a", "b"], [2, "foo", 4], list(range(-100, 101)), [1.5], [True], [0, "x"], list(range(-100, 100)), ["", "a", "b"]]
+SETS = [[], [2, 3, 4], ["a", "b"], [2, "foo", 4], list(range(-100, 101)), [1.5], [True], [0, "x"], list(range(-100, 100)), ["", "a", "b"],
+        [1.0, 2], [0.0, 7], [3.0, "x", 4], [True, 5], [-1.0, 0.0, 1.0, 2]]  # members of another numeric type that equal small ints
 
 
 def scalar_specs():
